@@ -381,3 +381,41 @@ func (p *Program) AllocOnlyInScan(typeName, ctor string) []string {
 	}
 	return bad
 }
+
+// StoredOnlyInScan: stores to the struct field key occur only in the listed functions.
+func (p *Program) StoredOnlyInScan(key string, allowed []string) []string {
+	var bad []string
+	ok := map[string]bool{}
+	for _, a := range allowed {
+		ok[a] = true
+	}
+	for fname, fn := range p.Funcs {
+		if ok[fname] {
+			continue
+		}
+		for _, b := range fn.Blocks {
+			for _, in := range b.Instrs {
+				st, isStore := in.(*ssa.Store)
+				if !isStore {
+					continue
+				}
+				fa, isFA := st.Addr.(*ssa.FieldAddr)
+				if !isFA {
+					continue
+				}
+				pt, isP := fa.X.Type().Underlying().(*types.Pointer)
+				if !isP {
+					continue
+				}
+				stt, isS := pt.Elem().Underlying().(*types.Struct)
+				if !isS {
+					continue
+				}
+				if p.TypeStr(pt.Elem(), nil)+"."+stt.Field(fa.Field).Name() == key {
+					bad = append(bad, fmt.Sprintf("%s stores to %s", fname, key))
+				}
+			}
+		}
+	}
+	return bad
+}
